@@ -92,6 +92,36 @@ def check_circles(ctx, circle, n, rng, reps):
         if cls == 0:
             for nm, t in (("transpose", got.T), ("flipud", got[::-1]), ("fliplr", got[:, ::-1])):
                 ctx.check(bool(np.array_equal(got, t)), "circle:d4_symmetry", "centred mask not invariant under " + nm, wit)
+    # a small window on the rim of a huge aperture: radius and centre offset of 2^24 .. 2^26 pixels, all inputs dyadic. There the
+    # double products x*x, y*y, their sum and r*r are exact only for some pixels; exactly those pixels are judged (for them the
+    # comparison of squares is exact arithmetic, while a square root of the same numbers would round)
+    for rep in range(max(2, reps // 2)):
+        origin = "middle" if rng.random() < 0.5 else "corner"
+        big = float(2 ** int(rng.integers(24, 27))) * float(rng.choice([1.0, 1.25, 1.5]))
+        r = big + float(rng.choice([0.0, 0.5, -0.5, 1.0]))
+        base = (n / 2.0) if origin == "corner" else 0.0
+        side = int(rng.integers(0, 4))
+        off = float(rng.integers(-n, n + 1)) / 2.0
+        c = [(-big + off, 0.0), (big + off, 0.0), (0.0, -big + off), (0.0, big + off)][side]
+        c = (c[0] + base, c[1] + base + float(rng.integers(-2, 3)) / 2.0)
+        wit = {"radius": r, "size": n, "centre": c, "origin": origin, "class": "huge_radius_and_offset"}
+        got = circle(r, n, c, origin)
+        want, nb = exact_circle(r, n, c, origin)
+        offF = Fraction(n, 2) if origin == "middle" else Fraction(0)
+        exact_repr = lambda q: Fraction(float(q)) == q
+        judged = np.zeros((n, n), dtype=bool)
+        r2 = Fraction(r) ** 2
+        if exact_repr(r2):
+            for i in range(n):
+                y = Fraction(2 * i + 1, 2) - offF - Fraction(c[1])
+                for j in range(n):
+                    x = Fraction(2 * j + 1, 2) - offF - Fraction(c[0])
+                    judged[i, j] = exact_repr(x * x) and exact_repr(y * y) and exact_repr(x * x + y * y)
+        ctx.case("circle_huge_offset", key=(r, n, c, origin), nontrivial=bool(judged.any()), sample=dict(wit, pixels_with_exact_arithmetic=int(judged.sum())))
+        ctx.count("huge_offset_pixels_judged", int(judged.sum()))
+        bad = np.argwhere((got != want) & judged)
+        ctx.check(len(bad) == 0, "circle:indicator:huge_radius_and_offset:" + origin,
+                  "%d pixel(s) whose squared distance is exact in double precision differ from the exact indicator on the rim of a huge aperture, first at %s" % (len(bad), bad[:1].tolist()), wit)
     # single-precision centres (a row of a float32 centroid array, numpy.float32 scalars) and a radius that passes a pixel centre
     # at a relative distance of 1e-9: far outside rounding of the double arithmetic, so the exact indicator decides
     for rep in range(max(2, reps // 2)):
